@@ -17,6 +17,7 @@ import (
 	"net"
 	"net/http"
 	"os"
+	"os/signal"
 	"path/filepath"
 	"runtime"
 	"strconv"
@@ -86,6 +87,12 @@ type progModel struct {
 func TestC25(t *testing.T) {
 	r := ev.Start(t, "C25", "exploration")
 	defer r.Finish()
+	// SIGHUP is how reloads are requested; keep a handler installed for the
+	// whole process so that one arriving between two servers' own handlers
+	// (their signal.Notify / signal.Stop) does not take the default action.
+	hup := make(chan os.Signal, 1)
+	signal.Notify(hup, syscall.SIGHUP)
+	defer signal.Stop(hup)
 	r.Rule("end-to-end runs of the real mtail.Server (not one-shot) with a program directory holding two fixed programs sharing a metric name with different kinds (the later one is refused at registration), a syntactically broken program and 1-2 generated programs (some raising runtime errors), and a history of log appends to two files incl. a file discovered by glob and a rotation, program edits / removals / re-adds each followed by SIGHUP. At the quiescent end: lines_total == lines written == fan-out hook count; log_lines_total[path] == lines written to path; prog_runtime_errors_total[p] == errors the reference interpreter predicts for the lines p processed; prog_loads / unloads / load_errors_total == model events (a refused registration and a compile failure count on every scan); log_count == live streams; the mtail_-prefixed series of a /metrics scrape equal the expvars. Non-trivial: run with >=1 reload step and >=1 runtime error; distinct by run index.")
 	r.Assume("steps are separated by logical barriers so every written line is delivered (C16 establishes that)", "program edits are comment-only so a program's semantics do not change within a run")
 	lh := func(id uint64, name string, l *logline.LogLine, phase int) {
@@ -249,7 +256,26 @@ func oneRun(t *testing.T, r *ev.Run, g *ev.RNG, base string, run int) (string, i
 		f.Close()
 		return barrier()
 	}
+	handlerUp := false
 	sighup := func() string {
+		if !handlerUp {
+			// the runtime installs its SIGHUP handler in a goroutine started by
+			// New; wait until that goroutine sits in its select, or the first
+			// signal of a run could arrive before anybody listens
+			if !fsdrv.Await(func() bool {
+				buf := make([]byte, 1<<20)
+				buf = buf[:runtime.Stack(buf, true)]
+				for _, g := range strings.Split(string(buf), "\n\n") {
+					if strings.Contains(g, "[select") && strings.Contains(g, "mtail/internal/runtime.New.func") {
+						return true
+					}
+				}
+				return false
+			}, watchdog) {
+				return "INCONCLUSIVE the runtime's SIGHUP handler goroutine was not seen waiting"
+			}
+			handlerUp = true
+		}
 		before := loadAlls.Load()
 		_ = syscall.Kill(syscall.Getpid(), syscall.SIGHUP)
 		if !fsdrv.Await(func() bool { return loadAlls.Load() > before }, watchdog) {
